@@ -1,7 +1,7 @@
 """C03 — async neutrality: sync and async arguments are interchangeable."""
 import asyncstdlib as A
 
-from .world import P, World, Driver, Item, fail, finish, Suspended, reset_run, same_seq, ITER_FLAVOURS, FN_FLAVOURS, call_sync, Lock
+from .world import ODD_FN_FLAVOURS, P, World, Driver, Item, fail, finish, Suspended, reset_run, same_seq, ITER_FLAVOURS, FN_FLAVOURS, call_sync, Lock
 from .tools import Opts
 from .gen import op_of, pre_gen, fix_flags, mkdata, run_async, run_sync, endings_match, endkind, n_items, pick, start_async
 
@@ -19,7 +19,7 @@ def h_flavour(k0: int, k1: int, k2: int, k3: int, k4: int, k5: int, k6: int, k7:
     op, kind = op_of(P("op"))
     name = op.name
     d = mkdata([k0, k1, k2, k3, k4, k5, k6, k7], [n0, n1, n2, 0], [p0, p1, p2], [b0, b1, b2])
-    f0, f1, ff = pick(ITER_FLAVOURS, x), pick(ITER_FLAVOURS, y), pick(FN_FLAVOURS, z)
+    f0, f1, ff = pick(ITER_FLAVOURS, x), pick(ITER_FLAVOURS, y), pick(ODD_FN_FLAVOURS if P("odd_fn", False) else FN_FLAVOURS, z)
     o = Opts(fl=[f0, f1, f0, f1], ffl=ff)
     if P("skip_seq", False) and f0 == "seq":
         # engine limitation: CrossHair's model of builtin sorted() calls ls.__iter__() and so
@@ -342,6 +342,11 @@ def jobs(tier):
     N1 = 2 if q else 3
     for op in TOOLS_FN:
         add("h_flavour", op=op, S=1, N=N1, X=(0, 6), Z=(0, 4))
+    for op in TOOLS_FN:
+        # callable objects that are falsy / compare by value (hence unhashable)
+        add("h_flavour", op=op, S=1, N=N1, X=(0, 6), Z=(0, 1), odd_fn=True)
+    for op in AGGS_FN:
+        add("h_flavour", op=op, S=1, N=N1, X=(0, 6), Z=(0, 1), b1=True, odd_fn=True)
     for op in TOOLS_NOFN:
         kw = {"form": 2, "PR": 2, "b0": False, "b1": False, "b2": False} if op == "islice" else {}
         add("h_flavour", op=op, S=1, N=N1, X=(0, 6), **kw)
@@ -370,7 +375,7 @@ def jobs(tier):
 
 
 BOUNDS = {
-    "quick": "every iterable parameter takes each of {list, __getitem__ sequence, sync iterator, async generator, class-based async iterator with aclose, without aclose, and one that is also sync-iterable} and every callable parameter each of {def, async def, partial(async def), callable object returning a coroutine, def returning a ready awaitable} by symbolic selectors (up to 7x7x5 combinations per tool); data N<=2 (two-source tools N<=1), keys unbounded; result compared with the stdlib on canonical flavours; ExitStack.push / callback with each callable flavour x {falsy, truthy, raising} x block outcome; sum over numbers incl. inexact floats and strings (N<=2, thorough 3, any start) under every flavour; return-type category checked for 55 public call forms covering asyncstdlib.__all__",
+    "quick": "every iterable parameter takes each of {list, __getitem__ sequence, sync iterator, async generator, class-based async iterator with aclose, without aclose, and one that is also sync-iterable} and every callable parameter each of {def, async def, partial(async def), callable object returning a coroutine, def returning a ready awaitable; separately: a falsy callable object and a value-comparing unhashable one} by symbolic selectors (up to 7x7x5 combinations per tool); data N<=2 (two-source tools N<=1), keys unbounded; result compared with the stdlib on canonical flavours; ExitStack.push / callback with each callable flavour x {falsy, truthy, raising} x block outcome; sum over numbers incl. inexact floats and strings (N<=2, thorough 3, any start) under every flavour; return-type category checked for 55 public call forms covering asyncstdlib.__all__",
     "thorough": "N<=3 (two-source tools N<=2)",
 }
 OUTSIDE = ["sorted(key=None) over a __getitem__-only sequence (CrossHair's sorted model rejects such sequences; covered natively by the pre-flight grid only)", "callables that return an awaitable on some calls and a plain value on others", "data sizes above the bound (flavour handling does not depend on data; stated, not proved)", "exit callbacks of ExitStack beyond push/callback with one entry (C14 covers stacks)"]
